@@ -18,6 +18,34 @@ CLAIMS = {
              "with the caller's context before Pending, context provenance in every poll body. These are necessary conditions (each "
              "broken one admits a concrete lost-wake schedule); sufficiency under weak-memory interleavings is NOT decided.",
         note=TB + "Undecided: behaviour under all interleavings permitted by the atomic orderings; dependency internals."),
+    "C02": dict(
+        technique="custom MIR analysis: must-pass-through + path-enumerated atomic groups + variant-aware live-drop analysis on slot map / drain / unbounded / ordered poll functions",
+        text="Decides the structural clauses behind exactly-once delivery on every CFG path: vacate<=>Ready with the same index, "
+             "who-may-insert/remove, slot-map insert/remove effects all-or-none (none exactly on refusal/already-free), Ready(None) only "
+             "behind an emptiness test, no live normal-path drop of an output, ordered outputs reach return-or-heap, remaining-counter "
+             "bookkeeping. Necessary conditions only: the free-list permutation invariant over all histories is NOT decided.",
+        note=TB + "Undecided: exactly-once over arbitrary free-list histories (inductive invariant over runtime values)."),
+    "C05": dict(
+        technique="custom MIR analysis: value provenance of every child-poll receiver to the Occupied-only accessor of the popped index; must-pass-through of removal",
+        text="Decides in full, at the structural level, that a child can only be polled through the Occupied-only accessor applied to "
+             "the index dequeued in the same iteration, that a Ready future / ended merged stream is removed (dropped in place through "
+             "Pin::set) before the call returns or drains again, that no slot value flows into move/forget APIs, and that adapters fuse "
+             "their upstream.",
+        note=TB + "Relies on Pin::set = drop in place + write."),
+    "C06": dict(
+        technique="custom MIR + type analysis: MaybeUninit-ownership rule, leak-API who-may table, refusal-path analysis, ownership-shape type walk, live-drop analysis",
+        text="Decides the ownership shape behind exactly-once drop: structs writing into MaybeUninit buffers own a releasing Drop impl; "
+             "leak-capable APIs occur only at the frozen reasoned sites; a refused insertion returns its argument, runs no closure, drops "
+             "nothing; no field hides a child/output behind ManuallyDrop/raw pointers; no unreasoned normal-path drop of a child-owning "
+             "value. Necessary conditions + language drop glue; exactly-once for every cancel point as a global fact is NOT decided.",
+        note=TB + "Two genuine defects found by R6.1 were repaired (fix: db5f447)."),
+    "C07": dict(
+        technique="custom MIR analysis: path-sensitive must-pass-through (drop-flag and enum-variant aware) preserving invariant 'slot vacant <=> output initialised'; cast/assume_init site audit",
+        text="Decides in full, at the structural level, that every path of JoinAll::poll / TryJoinAll::poll either writes output[i] for the "
+             "vacated slot i or invalidates (takes and releases) the buffer, that the MaybeUninit-erasing conversion is reachable only "
+             "under Ready(None) with the buffer moved out of the struct, that buffer length == queue capacity, that the queue is closed, "
+             "and that Ready values come only from the taken buffer or the drained Err payload.",
+        note=TB + "Leans on C02 R2.1/R2.4 (re-evaluated in this check). One genuine defect found by R7.1 was repaired (fix: db5f447)."),
 }
 
 NOT_APPLICABLE = {}
